@@ -68,6 +68,14 @@ VALIDATOR_CALLS = {
         ("L8.1:abs-in-ref", "an absolute IRI is an IRI reference"),
 }
 VALIDATOR_ASSERT = r"is_ok\((sophia_iri::Iri(Ref)?::<T>::new|sophia_api::term::(BnodeId|VarName|LanguageTag)::<T>::new)\)"
+# debug assertions on back-end data: function -> (validator asserted, obligation)
+ASSERTED = {
+    "model::bnode_id": ("sophia_api::term::BnodeId::<T>::new", "L8.1:label"),
+    "model::iri": ("sophia_iri::IriRef::<T>::new", "L8.1:iri-ref"),       # generalized parsers deliver relative references
+    "model::datatype": ("sophia_iri::Iri::<T>::new", "L8.1:iri-abs"),      # rio always resolves datatype IRIs
+    "model::variable": ("sophia_api::term::VarName::<T>::new", "L8.1:varname"),
+    "model::language_tag": ("sophia_api::term::LanguageTag::<T>::new", "L8.1:langtag"),
+}
 SCOPE_FILES = r"rio/src/(model|parser)\.rs$|turtle/src/parser/|xml/src/parser\.rs$|jsonld/src/(parser|vocabulary|loader)"
 
 
@@ -178,7 +186,16 @@ def run(ck, facts, tier):
                 ck.ok("R8.2", s.key, "discharged by %s (%s)" % ent)
             continue
         if s.status == "validator":
-            ck.ok("R8.2", s.key, s.reason)
+            ent = ASSERTED.get(s.fn.name)
+            asserted = re.search(r"is_ok\((.*)\)$", s.detail)
+            if ent is None or not asserted or asserted.group(1) != ent[0]:
+                ck.bad("R8.2", "R8.2@" + s.key, "assertion on back-end data uses %s; the audited validator for %s is %s (a stricter one "
+                       "panics in debug builds on tokens the back-end legitimately delivers)" % (
+                           asserted.group(1) if asserted else "?", s.fn.name, ent[0] if ent else "not audited"), s.loc)
+            elif not held.get(ent[1], False):
+                ck.bad("R8.2", "R8.2@" + s.key + "#undischarged", "assertion relies on obligation %s, which does not hold" % ent[1], s.loc)
+            else:
+                ck.ok("R8.2", s.key, "debug assertion discharged by %s" % ent[1])
         elif s.status == "auto":
             ck.ok("R8.2", s.key, "auto: " + s.reason)
         elif s.status == "r8.5":
